@@ -474,3 +474,594 @@ Proof.
 Qed.
 
 End Sound.
+
+(* ---- total correctness over a conforming device ------------------------------------------------ *)
+Lemma lex_lt_le_false a b : lex_lt a b -> lex_le b a -> False.
+Proof.
+  destruct a as [[a1 a2] a3], b as [[b1 b2] b3]. unfold lex_le, lex_lt.
+  intros H [H'|H']; [lia|]. apply pair_inj in H' as [H1 H3]. apply pair_inj in H1 as [H1 H2]. lia.
+Qed.
+
+Lemma newest_unique es i e i' e' : newest_at es i e -> newest_at es i' e' -> i = i' /\ e = e'.
+Proof.
+  intros (Hn & Hd & Hall & Hearly) (Hn' & Hd' & Hall' & Hearly').
+  destruct (Nat.lt_trichotomy i i') as [Hlt|[->|Hlt]].
+  - exfalso. apply (lex_lt_le_false (vkey e) (vkey e')); eauto.
+  - split; [reflexivity|congruence].
+  - exfalso. apply (lex_lt_le_false (vkey e') (vkey e)); eauto.
+Qed.
+
+Lemma pick_total es : forall i cur, Forall valid_type es -> exists c', pick i es cur = Some c'.
+Proof.
+  induction es as [|e es IH]; intros i cur Hv; cbn [pick]; [eauto|].
+  inversion Hv as [|? ? He Hr]; subst. unfold pstep.
+  destruct He as [He|He]; rewrite He; cbn [Z.eqb Pos.eqb].
+  - destruct cur as [[j c]|]; [destruct (ver_le _ _)|]; apply IH; exact Hr.
+  - apply IH; exact Hr.
+Qed.
+
+Lemma pick_complete es i e : Forall valid_type es -> newest_at es i e -> pick 0 es None = Some (Some (i, e)).
+Proof.
+  intros Hv Hn. destruct (pick_total es 0%nat None Hv) as [c' Hp]. rewrite Hp.
+  destruct (pick_spec _ _ Hp) as [Hb _]. destruct c' as [[i' e']|]; cbn [best_of] in Hb.
+  - destruct (newest_unique _ _ _ _ _ Hn Hb) as [-> ->]. reflexivity.
+  - exfalso. destruct Hn as (Hn & Hd & _). exact (Hb _ _ Hn Hd).
+Qed.
+
+Lemma zeqb_list_refl a : zeqb_list a a = true.
+Proof.
+  unfold zeqb_list. rewrite Nat.eqb_refl. cbn [andb].
+  induction a as [|x a IH]; cbn [combine forallb fst snd]; [reflexivity|]. now rewrite Z.eqb_refl, IH.
+Qed.
+
+Section Complete.
+Variable sha1 : list Z -> list Z.
+Variable unzip : list Z -> option (list (option (list Z))).
+Variable good : st -> Prop.
+Hypothesis HC : conforming_reads good.
+Variable segs : list (Z * list Z).
+
+Local Notation Inv := (Inv good segs).
+Local Notation doc_rel := (ManifestSpec.doc_rel unzip lossy).
+Local Notation doc_spec := (ManifestSpec.doc_spec sha1 unzip lossy segs).
+
+Definition tot {A} (m : X A) (Q : A -> Prop) : Prop :=
+  forall xs, Inv xs -> exists a xs', m xs = (Ok a, xs') /\ Inv xs' /\ Q a.
+
+Lemma tot_ret {A} (a : A) (Q : A -> Prop) : Q a -> tot (xret a) Q.
+Proof. intros HQ xs HI. exists a, xs. auto. Qed.
+
+Lemma tot_bind {A B} (m : X A) (f : A -> X B) (Q : A -> Prop) (R : B -> Prop) :
+  tot m Q -> (forall a, Q a -> tot (f a) R) -> tot (xbind m f) R.
+Proof.
+  intros Hm Hf xs HI. destruct (Hm xs HI) as (a & xs1 & E & HI1 & HQ).
+  unfold xbind. rewrite E. exact (Hf a HQ xs1 HI1).
+Qed.
+
+Lemma read_ok a n d s : good s -> w_segs (snd s) = segs -> mem_read segs a n = Some d ->
+  exists s', ctl_read a n s = (Ok d, s') /\ good s' /\ w_segs (snd s') = segs.
+Proof.
+  intros Hg Hs Hm. destruct HC as [(_ & _ & Hh) Hc]. rewrite <- Hs in Hm.
+  destruct (Hc _ _ _ _ Hg Hm) as [s' E]. exists s'. split; [exact E|].
+  destruct (Hh _ _ _ _ _ Hg E) as (Hg' & Hs' & _). split; [exact Hg'|congruence].
+Qed.
+
+Lemma tot_read a n d : mem_read segs a n = Some d -> tot (x_read a n) (fun r => r = d).
+Proof.
+  intros Hm [x s] [Hg Hs]. cbn [snd] in Hg, Hs.
+  destruct (read_ok a n d s Hg Hs Hm) as (s' & E & Hg' & Hs').
+  unfold x_read, liftM. rewrite E. eexists; eexists. split; [reflexivity|]. split; [split; assumption|reflexivity].
+Qed.
+
+Lemma tot_reg a n v : u_field segs a n v -> tot (x_reg a (Z.of_nat n)) (fun r => r = v).
+Proof.
+  intros [Hr Hm] [x s] [Hg Hs]. cbn [snd] in Hg, Hs.
+  destruct (read_ok _ _ _ s Hg Hs Hm) as (s' & E & Hg' & Hs').
+  unfold x_reg, liftM, read_reg, bindM. rewrite E. unfold ret.
+  eexists; eexists. split; [reflexivity|]. split; [split; assumption|]. now apply of_le_le_bytes.
+Qed.
+
+Lemma tot_addr b o : b + o < 2 ^ 64 -> tot (x_addr b o) (fun r => r = b + o).
+Proof.
+  intros Hlt [x s] HI. unfold x_addr, liftM, reg_addr.
+  destruct (Z.ltb_spec (b + o) (2 ^ 64)); [|lia]. unfold ret.
+  eexists; eexists. split; [reflexivity|]. split; [|reflexivity].
+  destruct HI as [Hg Hs]. split; assumption.
+Qed.
+
+Lemma tot_getx : tot get_x (fun _ => True).
+Proof. intros xs HI. exists (fst xs), xs. auto. Qed.
+
+Lemma tot_set_mt a : tot (set_mt a) (fun _ => True).
+Proof. intros [x s] HI. eexists; eexists. split; [reflexivity|]. split; [exact HI|exact I]. Qed.
+
+Lemma tot_resize n : tot (resize_buffer n) (fun _ => True).
+Proof.
+  intros [x [c w]] [Hg Hs]. cbn [snd] in Hg, Hs. eexists; eexists. split; [reflexivity|].
+  destruct HC as [(Hb & _) _]. split; [split; [now apply Hb|exact Hs]|exact I].
+Qed.
+
+Lemma tot_abrm : tot (liftM h_abrm) (fun _ => True).
+Proof.
+  intros [x s] [Hg Hs]. cbn [snd] in Hg, Hs. destruct HC as [(_ & Ha & _) _]. specialize (Ha _ Hg).
+  unfold liftM, h_abrm, bindM, get_ctl. destruct (c_abrm (fst s)) as [cap|]; [|now elim Ha].
+  unfold ret. eexists; eexists. split; [reflexivity|]. split; [split; assumption|exact I].
+Qed.
+
+Local Notation crel := (crel).
+
+Lemma tot_scan_entry first i e nw cur :
+  entry_at segs (first + Z.of_nat i * 64) e -> valid_type e -> crel first nw cur ->
+  tot (scan_entry (first + Z.of_nat i * 64) nw)
+      (fun nw' => exists c', pstep i e cur = Some c' /\ crel first nw' c').
+Proof.
+  intros (Ha0 & Ha1 & Fv & Fi & _) Hv Hc. unfold scan_entry.
+  eapply tot_bind; [apply tot_addr; lia|]. intros ia ->.
+  eapply tot_bind; [apply (tot_reg _ 4%nat _ Fi)|]. intros info ->.
+  unfold file_type, pstep.
+  destruct (Z.eqb_spec (me_info e mod 8) 0) as [E0|E0].
+  - eapply tot_bind; [apply tot_addr; lia|]. intros va ->. rewrite Z.add_0_r.
+    eapply tot_bind; [apply (tot_reg _ 4%nat _ Fv)|]. intros v ->.
+    change (version_of (me_ver e)) with (vkey e).
+    destruct nw as [[[a0 cv] ci]|], cur as [[j c]|]; cbn [P_C14.crel] in Hc; try contradiction.
+    + destruct Hc as (-> & -> & ->).
+      destruct (ver_le (vkey e) (vkey c)); apply tot_ret; eexists; (split; [reflexivity|]); cbn [P_C14.crel]; auto.
+    + apply tot_ret. eexists; split; [reflexivity|]. cbn [P_C14.crel]; auto.
+  - destruct (Z.eqb_spec (me_info e mod 8) 1) as [E1|E1]; [apply tot_ret; eauto|].
+    exfalso. destruct Hv; contradiction.
+Qed.
+
+Lemma tot_scan first : forall es i cur nw,
+  entries_at segs (first + Z.of_nat i * 64) es -> Forall valid_type es -> crel first nw cur ->
+  tot (scan (length es) first (Z.of_nat i) nw)
+      (fun nw' => exists c', pick i es cur = Some c' /\ crel first nw' c').
+Proof.
+  induction es as [|e es IH]; intros i cur nw He Hv Hc; cbn [scan length pick].
+  - apply tot_ret. eauto.
+  - destruct He as [He Hr]. inversion Hv as [|? ? Hve Hvr]; subst.
+    destruct (Z.ltb_spec (first + Z.of_nat i * 64) (2 ^ 64)) as [Hlt|Hge].
+    + eapply tot_bind; [apply (tot_scan_entry first i e nw cur He Hve Hc)|].
+      intros nw' (c' & Hp & Hc'). rewrite Hp.
+      replace (Z.of_nat i + 1) with (Z.of_nat (S i)) by lia.
+      apply IH; [|exact Hvr|exact Hc'].
+      replace (first + Z.of_nat (S i) * 64) with (first + Z.of_nat i * 64 + 64) by lia. exact Hr.
+    + exfalso. destruct He as (_ & H64 & _). lia.
+Qed.
+
+Lemma tot_entries t es : table_at segs t es -> t + 8 < 2 ^ 64 ->
+  tot (entries t) (fun fe => fe = (t + 8, zlen es)).
+Proof.
+  intros (Ht & Fn & He) H8. unfold entries.
+  eapply tot_bind; [apply tot_addr; lia|]. intros a0 ->. rewrite Z.add_0_r.
+  eapply tot_bind; [apply (tot_reg _ 8%nat _ Fn)|]. intros n ->.
+  eapply tot_bind; [apply tot_addr; lia|]. intros first ->.
+  destruct (Z.eqb_spec (zlen es) 0) as [E|E]; [apply tot_ret; now rewrite E|].
+  destruct (Z.ltb_spec (t + 8 + (zlen es - 1) * 64) (2 ^ 64)) as [Hl|Hl]; [apply tot_ret; reflexivity|].
+  exfalso. unfold zlen in *.
+  destruct (nth_error es (length es - 1)) as [e|] eqn:En.
+  - pose proof (entries_at_nth segs es (t + 8) _ _ He En) as (_ & H64 & _).
+    rewrite Nat2Z.inj_sub in H64 by (destruct es; cbn in *; lia). cbn [Z.of_nat Pos.of_succ_nat] in H64. lia.
+  - apply nth_error_None in En. destruct es; cbn in *; lia.
+Qed.
+
+Lemma tot_verify buf ent h : ent + 24 < 2 ^ 64 -> mem_read segs (ent + 24) 20 = Some h ->
+  hash_absent h \/ sha1 buf = h -> tot (verify_xml sha1 buf ent) (fun _ => True).
+Proof.
+  intros Hlt Hh Hok. unfold verify_xml.
+  eapply tot_bind; [apply tot_addr; exact Hlt|]. intros ha ->.
+  eapply tot_bind; [apply (tot_read _ _ _ Hh)|]. intros h' ->.
+  destruct (forallb (fun b => b =? 0) h) eqn:Ef; [now apply tot_ret|].
+  destruct Hok as [Ha| <-].
+  - exfalso. assert (forallb (fun b => b =? 0) h = true); [|congruence].
+    apply forallb_forall. intros b Hb. unfold hash_absent in Ha. rewrite Forall_forall in Ha.
+    apply Z.eqb_eq. now apply Ha.
+  - rewrite zeqb_list_refl. now apply tot_ret.
+Qed.
+
+Lemma tot_decode comp buf text : doc_rel comp buf text -> tot (decode unzip comp buf) (fun r => r = text).
+Proof.
+  intros [[-> ->]|(-> & xml & Eu & ->)]; unfold decode.
+  - change (0 =? 1) with false. cbv iota. now apply tot_ret.
+  - change (1 =? 1) with true. cbv iota. rewrite Eu. now apply tot_ret.
+Qed.
+
+Lemma tot_fetch first i e sel text :
+  P_C14.crel first (Some sel) (Some (i, e)) -> entry_at segs (first + Z.of_nat i * 64) e ->
+  me_size e < 2 ^ 63 -> doc_spec e text ->
+  tot (fetch sha1 unzip sel) (fun r => r = text).
+Proof.
+  destruct sel as [[a v] inf]. intros (-> & -> & ->) (Ha0 & Ha1 & Fv & Fi & Fa & Fs & Fh) Hsz (file & Hf & Hh & Hd).
+  unfold fetch.
+  eapply tot_bind; [apply tot_addr; lia|]. intros aa ->.
+  eapply tot_bind; [apply (tot_reg _ 8%nat _ Fa)|]. intros fa ->.
+  eapply tot_bind; [apply tot_addr; lia|]. intros sa ->.
+  eapply tot_bind; [apply (tot_reg _ 8%nat _ Fs)|]. intros fs ->.
+  change (compression_type (me_info e)) with (file_format e).
+  assert (Hc : (file_format e =? 0) || (file_format e =? 1) = true).
+  { destruct Hd as [[-> _]|[-> _]]; reflexivity. }
+  rewrite Hc. cbn [negb].
+  eapply tot_bind; [apply tot_getx|]. intros x _.
+  destruct (Z.leb_spec (2 ^ 63) (me_size e)); [lia|].
+  eapply tot_bind; [apply (tot_read _ _ _ Hf)|]. intros buf ->.
+  eapply tot_bind; [apply tot_resize|]. intros u _.
+  assert (H24 : first + Z.of_nat i * 64 + 24 < 2 ^ 64) by lia.
+  eapply tot_bind; [apply (tot_verify file _ _ H24 Fh Hh)|]. intros u' _.
+  now apply tot_decode.
+Qed.
+
+Lemma tot_after_table t es i e text :
+  table_at segs t es -> t + 8 < 2 ^ 64 -> Forall valid_type es -> newest_at es i e ->
+  me_size e < 2 ^ 63 -> doc_spec e text ->
+  tot (after_table sha1 unzip t) (fun r => r = text).
+Proof.
+  intros Ht H8 Hv Hn Hsz Hd. unfold after_table.
+  eapply tot_bind; [apply (tot_entries t es Ht H8)|]. intros fe ->. cbn [fst snd].
+  unfold zlen. rewrite Nat2Z.id.
+  eapply tot_bind; [apply (tot_scan (t + 8) es 0%nat None None)|].
+  { cbn [Z.of_nat]. replace (t + 8 + 0 * 64) with (t + 8) by lia. apply Ht. }
+  { exact Hv. } { exact I. }
+  intros nw (c' & Hp & Hc). rewrite (pick_complete es i e Hv Hn) in Hp. apply Ok_inj' in Hp. subst c'.
+  destruct nw as [[[a0 v0] i0]|]; cbn [P_C14.crel] in Hc; [|contradiction].
+  apply (tot_fetch (t + 8) i e (a0, v0, i0) text Hc); auto.
+  apply (entries_at_nth segs es (t + 8) i e); [apply Ht|apply Hn].
+Qed.
+
+Lemma tot_mt_fetch t : u_field segs 464 8 t -> tot mt_fetch (fun a => a = t).
+Proof.
+  intros F. unfold mt_fetch.
+  eapply tot_bind; [apply tot_abrm|]. intros u _.
+  eapply tot_bind; [apply (tot_reg 464 8%nat t F)|]. intros a ->.
+  eapply tot_bind; [apply tot_set_mt|]. intros u' _. now apply tot_ret.
+Qed.
+
+Lemma genapi_complete_core x s t es i e text :
+  good s -> w_segs (snd s) = segs -> manifest_known (x_mt x) segs t -> table_at segs t es ->
+  t + 8 < 2 ^ 64 -> Forall valid_type es -> newest_at es i e -> me_size e < 2 ^ 63 -> doc_spec e text ->
+  exists xs', genapi sha1 unzip (x, s) = (Ok text, xs') /\ Inv xs'.
+Proof.
+  intros Hg Hs Hm Ht H8 Hv Hn Hsz Hd. rewrite genapi_unfold. unfold xbind.
+  assert (HI : Inv (x, s)) by (split; assumption).
+  assert (M : exists xs1, manifest_table (x, s) = (Ok t, xs1) /\ Inv xs1).
+  { rewrite manifest_table_eq. cbn [fst]. unfold manifest_known in Hm. destruct (x_mt x) as [a|].
+    - subst a. eauto.
+    - destruct (tot_mt_fetch t Hm _ HI) as (a & xs1 & E & HI1 & ->). eauto. }
+  destruct M as (xs1 & -> & HI1).
+  destruct (tot_after_table t es i e text Ht H8 Hv Hn Hsz Hd xs1 HI1) as (a & xs' & E & HI' & ->).
+  eauto.
+Qed.
+
+End Complete.
+
+(* ---- no panic against any device (lying, hostile), given that DeviceControl::read never panics ---- *)
+Section NoPanic.
+Variable sha1 : list Z -> list Z.
+Variable unzip : list Z -> option (list (option (list Z))).
+Hypothesis RT : forall a n s, fst (ctl_read a n s) <> Panic.
+
+(* v was returned by some register read *)
+Definition seen (v : Z) : Prop := exists a n s0 s1, read_reg a n s0 = (Ok v, s1).
+Definition absurd_size_seen : Prop := exists v, seen v /\ 2 ^ 63 <= v.
+Local Notation Bad := absurd_size_seen.
+
+Definition npq {A} (m : X A) (Q : A -> Prop) : Prop :=
+  forall xs r xs', m xs = (r, xs') -> (r = Panic -> Bad) /\ forall a, r = Ok a -> Q a.
+Definition mnpq {A} (m : M A) (Q : A -> Prop) : Prop :=
+  forall s r s', m s = (r, s') -> (r = Panic -> Bad) /\ forall a, r = Ok a -> Q a.
+
+Lemma npq_ret {A} (a : A) (Q : A -> Prop) : Q a -> npq (xret a) Q.
+Proof.
+  intros HQ xs r xs' E. unfold xret in E. apply pair_inj in E as [<- <-].
+  split; [discriminate|]. intros b Hb. apply Ok_inj in Hb. now subst.
+Qed.
+Lemma npq_fail {A} e (Q : A -> Prop) : npq (xfail e) Q.
+Proof. intros xs r xs' E. unfold xfail in E. apply pair_inj in E as [<- <-]. split; discriminate. Qed.
+Lemma npq_bind {A B} (m : X A) (f : A -> X B) (Q : A -> Prop) (R : B -> Prop) :
+  npq m Q -> (forall a, Q a -> npq (f a) R) -> npq (xbind m f) R.
+Proof.
+  intros Hm Hf xs r xs' E. unfold xbind in E. destruct (m xs) as [[a|e|] xs1] eqn:Em.
+  - destruct (Hm _ _ _ Em) as (_ & HQ). eapply Hf; eauto.
+  - apply pair_inj in E as [<- <-]. split; discriminate.
+  - destruct (Hm _ _ _ Em) as (HP & _). apply pair_inj in E as [<- <-]. split; [intros _; now apply HP|discriminate].
+Qed.
+Lemma npq_weaken {A} (m : X A) (Q : A -> Prop) : npq m Q -> npq m (fun _ => True).
+Proof. intros H xs r xs' E. destruct (H _ _ _ E). split; auto. Qed.
+
+Lemma mnpq_ret {A} (a : A) (Q : A -> Prop) : Q a -> mnpq (ret a) Q.
+Proof.
+  intros HQ s r s' E. unfold ret in E. apply pair_inj in E as [<- <-].
+  split; [discriminate|]. intros b Hb. apply Ok_inj in Hb. now subst.
+Qed.
+Lemma mnpq_fail {A} e (Q : A -> Prop) : mnpq (fail e) Q.
+Proof. intros s r s' E. unfold fail in E. apply pair_inj in E as [<- <-]. split; discriminate. Qed.
+Lemma mnpq_bind {A B} (m : M A) (f : A -> M B) (Q : A -> Prop) (R : B -> Prop) :
+  mnpq m Q -> (forall a, Q a -> mnpq (f a) R) -> mnpq (bindM m f) R.
+Proof.
+  intros Hm Hf s r s' E. unfold bindM in E. destruct (m s) as [[a|e|] s1] eqn:Em.
+  - destruct (Hm _ _ _ Em) as (_ & HQ). eapply Hf; eauto.
+  - apply pair_inj in E as [<- <-]. split; discriminate.
+  - destruct (Hm _ _ _ Em) as (HP & _). apply pair_inj in E as [<- <-]. split; [intros _; now apply HP|discriminate].
+Qed.
+
+Lemma mnpq_read a n : mnpq (ctl_read a n) (fun _ => True).
+Proof.
+  intros s r s' E. split; [|auto]. intros ->. exfalso. apply (RT a n s). now rewrite E.
+Qed.
+Lemma mnpq_reg a n : mnpq (read_reg a n) seen.
+Proof.
+  intros s r s' E. split.
+  - intros ->. exfalso. unfold read_reg, bindM in E.
+    destruct (ctl_read a n s) as [[d|e|] s1] eqn:Er; try (unfold ret in E; apply pair_inj in E as [E _]; discriminate).
+    apply (RT a n s). now rewrite Er.
+  - intros v ->. exists a, n, s, s'. exact E.
+Qed.
+Lemma mnpq_addr b o : mnpq (reg_addr b o) (fun v => v = b + o /\ b + o < 2 ^ 64).
+Proof.
+  unfold reg_addr. destruct (Z.ltb_spec (b + o) (2 ^ 64)); [apply mnpq_ret; auto|apply mnpq_fail].
+Qed.
+Lemma mnpq_abrm : mnpq h_abrm (fun _ => True).
+Proof.
+  unfold h_abrm. eapply mnpq_bind with (Q := fun _ => True).
+  - intros s r s' E. unfold get_ctl in E. apply pair_inj in E as [<- <-]. split; [discriminate|auto].
+  - intros c _. destruct (c_abrm c); [now apply mnpq_ret|].
+    eapply mnpq_bind; [apply mnpq_reg|]. intros cap _.
+    eapply mnpq_bind with (Q := fun _ => True); [|intros; now apply mnpq_ret].
+    intros s r s' E. unfold upd_ctl in E. apply pair_inj in E as [<- <-]. split; [discriminate|auto].
+Qed.
+Lemma npq_lift {A} (m : M A) (Q : A -> Prop) : mnpq m Q -> npq (liftM m) Q.
+Proof.
+  intros Hm [x s] r xs' E. unfold liftM in E. destruct (m s) as [r1 s1] eqn:Em.
+  apply pair_inj in E as [<- <-]. exact (Hm _ _ _ Em).
+Qed.
+Lemma npq_state {A} (m : X A) : (forall xs, exists a xs', m xs = (Ok a, xs')) -> npq m (fun _ => True).
+Proof.
+  intros H xs r xs' E. destruct (H xs) as (a & xs1 & E1). rewrite E1 in E. apply pair_inj in E as [<- <-].
+  split; [discriminate|auto].
+Qed.
+
+Lemma npq_scan_entry ent nw : npq (scan_entry ent nw) (fun _ => True).
+Proof.
+  unfold scan_entry.
+  eapply npq_bind; [apply npq_lift, mnpq_addr|]. intros ia _.
+  eapply npq_bind; [apply npq_lift, mnpq_reg|]. intros info _.
+  destruct (file_type info =? 0).
+  - eapply npq_bind; [apply npq_lift, mnpq_addr|]. intros va _.
+    eapply npq_bind; [apply npq_lift, mnpq_reg|]. intros v _.
+    destruct nw as [[[a0 cv] ci]|]; [destruct (ver_le _ _)|]; now apply npq_ret.
+  - destruct (file_type info =? 1); [now apply npq_ret|apply npq_fail].
+Qed.
+
+Lemma npq_scan first : forall k i nw,
+  (k = O \/ first + (i + Z.of_nat k - 1) * 64 < 2 ^ 64) -> npq (scan k first i nw) (fun _ => True).
+Proof.
+  induction k as [|k IH]; intros i nw Hb; cbn [scan]; [now apply npq_ret|].
+  destruct Hb as [Hb|Hb]; [discriminate|].
+  destruct (Z.ltb_spec (first + i * 64) (2 ^ 64)) as [Hl|Hl]; [|exfalso; lia].
+  eapply npq_bind; [apply npq_scan_entry|]. intros nw' _.
+  apply IH. destruct k; [now left|right]. lia.
+Qed.
+
+Lemma npq_entries t :
+  npq (entries t) (fun fe => Z.to_nat (snd fe) = O \/ fst fe + (snd fe - 1) * 64 < 2 ^ 64).
+Proof.
+  unfold entries.
+  eapply npq_bind; [apply npq_lift, mnpq_addr|]. intros a0 _.
+  eapply npq_bind; [apply npq_lift, mnpq_reg|]. intros n _.
+  eapply npq_bind; [apply npq_lift, mnpq_addr|]. intros first _.
+  destruct (n =? 0); [apply npq_ret; now left|].
+  destruct (Z.ltb_spec (first + (n - 1) * 64) (2 ^ 64)); [apply npq_ret; now right|apply npq_fail].
+Qed.
+
+Lemma npq_verify buf ent : npq (verify_xml sha1 buf ent) (fun _ => True).
+Proof.
+  unfold verify_xml.
+  eapply npq_bind; [apply npq_lift, mnpq_addr|]. intros ha _.
+  eapply npq_bind; [apply npq_lift, mnpq_read|]. intros h _.
+  destruct (forallb _ h); [now apply npq_ret|]. destruct (zeqb_list _ _); [now apply npq_ret|apply npq_fail].
+Qed.
+
+Lemma npq_decode comp buf : npq (decode unzip comp buf) (fun _ => True).
+Proof.
+  unfold decode. destruct (comp =? 1); [|now apply npq_ret].
+  destruct (unzip buf) as [[|[xml|] [|f2 fs]]|]; try apply npq_fail. now apply npq_ret.
+Qed.
+
+Lemma npq_fetch sel : npq (fetch sha1 unzip sel) (fun _ => True).
+Proof.
+  destruct sel as [[ent v] info]. unfold fetch.
+  eapply npq_bind; [apply npq_lift, mnpq_addr|]. intros aa _.
+  eapply npq_bind; [apply npq_lift, mnpq_reg|]. intros fa _.
+  eapply npq_bind; [apply npq_lift, mnpq_addr|]. intros sa _.
+  eapply npq_bind; [apply npq_lift, mnpq_reg|]. intros fs Hseen.
+  destruct (negb _); [apply npq_fail|].
+  eapply npq_bind with (Q := fun _ => True); [apply npq_state; intros xs; exists (fst xs), xs; reflexivity|]. intros x _.
+  destruct (Z.leb_spec (2 ^ 63) fs) as [Hbig|Hsmall].
+  - intros xs r xs' E. unfold xpanic in E. apply pair_inj in E as [<- <-].
+    split; [intros _; exists fs; auto|discriminate].
+  - eapply npq_bind; [apply npq_lift, mnpq_read|]. intros buf _.
+    eapply npq_bind with (Q := fun _ => True).
+    { apply npq_state. intros [x0 [c w]]. eexists; eexists; reflexivity. }
+    intros u _. eapply npq_bind; [apply npq_verify|]. intros u' _. apply npq_decode.
+Qed.
+
+Lemma npq_manifest_table : npq manifest_table (fun _ => True).
+Proof.
+  unfold manifest_table.
+  eapply npq_bind with (Q := fun _ => True); [apply npq_state; intros xs; exists (fst xs), xs; reflexivity|].
+  intros x _. destruct (x_mt x); [now apply npq_ret|].
+  eapply npq_bind; [apply npq_lift, mnpq_abrm|]. intros u _.
+  eapply npq_bind; [apply npq_lift, mnpq_reg|]. intros a _.
+  eapply npq_bind with (Q := fun _ => True); [apply npq_state; intros [x0 s0]; eexists; eexists; reflexivity|].
+  intros u' _. now apply npq_ret.
+Qed.
+
+Lemma genapi_no_panic xs : fst (genapi sha1 unzip xs) = Panic -> absurd_size_seen.
+Proof.
+  intros H. destruct (genapi sha1 unzip xs) as [r xs'] eqn:E. cbn [fst] in H.
+  assert (N : npq (genapi sha1 unzip) (fun _ => True)); [|exact (proj1 (N _ _ _ E) H)].
+  unfold genapi.
+  eapply npq_bind; [apply npq_manifest_table|]. intros t _.
+  eapply npq_bind; [apply npq_entries|]. intros [first n] Hb. cbn [fst snd] in *.
+  eapply npq_bind with (Q := fun _ => True).
+  - apply npq_scan. destruct Hb as [Hb|Hb]; [now left|].
+    destruct (Z.to_nat n) eqn:En; [now left|right]. rewrite <- En. rewrite Z2Nat.id by lia. lia.
+  - intros nw _. destruct nw; [apply npq_fetch|apply npq_fail].
+Qed.
+
+End NoPanic.
+
+(* ---- the property theorems ----------------------------------------------------------------------- *)
+Theorem selects_newest good segs t es xs r xs' :
+  honest_reads good -> good (snd xs) -> w_segs (snd (snd xs)) = segs -> entries_at segs (t + 8) es ->
+  scan (length es) (t + 8) 0 None xs = (r, xs') ->
+  r <> Panic /\
+  forall nw, r = Ok nw ->
+    Forall valid_type es /\
+    match nw with
+    | Some (a, v, inf) =>
+      exists i e, newest_at es i e /\ a = t + 8 + Z.of_nat i * 64 /\ v = vkey e /\ inf = me_info e
+    | None => forall e, In e es -> ~ is_dev e
+    end.
+Proof.
+  intros HH Hg Hs He E.
+  assert (T := tri_scan good HH segs False (t + 8) es 0%nat None None).
+  cbn [Z.of_nat] in T. replace (t + 8 + 0 * 64) with (t + 8) in T by lia.
+  destruct (T He I xs r xs' (conj Hg Hs) E) as (_ & HP & HQ).
+  split; [intros ->; now apply HP|]. intros nw ->.
+  destruct (HQ nw eq_refl) as (c' & Hp & Hc). apply pick_spec in Hp as [Hb Hv]. split; [exact Hv|].
+  destruct nw as [[[a v] inf]|], c' as [[i e]|]; cbn [crel] in Hc; try contradiction; cbn [best_of] in Hb.
+  - exists i, e. tauto.
+  - intros e Hin. apply In_nth_error in Hin as [j Hj]. eauto.
+Qed.
+
+Theorem genapi_sound sha1 unzip good x s t es r xs' :
+  honest_reads good -> good s -> manifest_known (x_mt x) (w_segs (snd s)) t ->
+  table_at (w_segs (snd s)) t es ->
+  genapi sha1 unzip (x, s) = (r, xs') ->
+  (good (snd xs') /\ w_segs (snd (snd xs')) = w_segs (snd s)) /\
+  (r = Panic -> exists e, In e es /\ 2 ^ 63 <= me_size e) /\
+  (forall text, r = Ok text -> result_spec sha1 unzip lossy (w_segs (snd s)) es text).
+Proof.
+  intros HH Hg Hm Ht E.
+  apply (genapi_sound_core sha1 unzip good HH (w_segs (snd s)) (exists e, In e es /\ 2 ^ 63 <= me_size e)
+           x s t es r xs' Hg eq_refl Hm Ht); [|exact E].
+  intros e Hin Hbig. eauto.
+Qed.
+
+Lemma no_document_cases sha1 unzip segs es :
+  (forall e, In e es -> ~ is_dev e) \/
+  (exists e, In e es /\ ~ valid_type e) \/
+  (exists i e, newest_at es i e /\
+     (mem_read segs (me_addr e) (me_size e) = None \/
+      exists file, mem_read segs (me_addr e) (me_size e) = Some file /\
+        ((~ hash_absent (me_hash e) /\ sha1 file <> me_hash e) \/
+         (file_format e <> 0 /\ file_format e <> 1) \/
+         (file_format e = 1 /\ forall xml, unzip file <> Some [Some xml])))) ->
+  ~ exists text, result_spec sha1 unzip lossy segs es text.
+Proof.
+  intros Hcase [text (i' & e' & Hn & Hv & file' & Hf & Hh & Hd)].
+  destruct Hcase as [Hnone|[(e & Hin & Hbad)|(i & e & Hn0 & Hcase)]].
+  - destruct Hn as (Hnth & Hdev & _). apply nth_error_In in Hnth. exact (Hnone _ Hnth Hdev).
+  - rewrite Forall_forall in Hv. exact (Hbad (Hv _ Hin)).
+  - destruct (newest_unique _ _ _ _ _ Hn0 Hn) as [-> ->].
+    destruct Hcase as [Hnomem|(file & Hf0 & Hcase)]; [congruence|].
+    assert (file = file') by congruence. subst file'.
+    destruct Hcase as [[Hpres Hne]|[[Hf1 Hf2]|[Hz Hnz]]].
+    + destruct Hh; contradiction.
+    + destruct Hd as [[? _]|[? _]]; contradiction.
+    + destruct Hd as [[? _]|(_ & xml & Hu & _)]; [lia|]. exact (Hnz _ Hu).
+Qed.
+
+Theorem genapi_errors sha1 unzip good x s t es r xs' :
+  honest_reads good -> good s -> manifest_known (x_mt x) (w_segs (snd s)) t ->
+  table_at (w_segs (snd s)) t es -> (forall e, In e es -> me_size e < 2 ^ 63) ->
+  genapi sha1 unzip (x, s) = (r, xs') ->
+  ~ (exists text, result_spec sha1 unzip lossy (w_segs (snd s)) es text) ->
+  exists c, r = Err c.
+Proof.
+  intros HH Hg Hm Ht Hsz E Hno.
+  destruct (genapi_sound _ _ _ _ _ _ _ _ _ HH Hg Hm Ht E) as (_ & HP & HQ).
+  destruct r as [text|c|].
+  - exfalso. apply Hno. exists text. now apply HQ.
+  - eauto.
+  - exfalso. destruct (HP eq_refl) as (e & Hin & Hbig). specialize (Hsz _ Hin). lia.
+Qed.
+
+Theorem genapi_returns_file sha1 unzip good x s t es i e text :
+  conforming_reads good -> good s -> manifest_known (x_mt x) (w_segs (snd s)) t ->
+  table_at (w_segs (snd s)) t es -> t + 8 < 2 ^ 64 -> Forall valid_type es ->
+  newest_at es i e -> me_size e < 2 ^ 63 -> doc_spec sha1 unzip lossy (w_segs (snd s)) e text ->
+  exists xs', genapi sha1 unzip (x, s) = (Ok text, xs') /\
+              good (snd xs') /\ w_segs (snd (snd xs')) = w_segs (snd s).
+Proof.
+  intros HC Hg Hm Ht H8 Hv Hn Hsz Hd.
+  exact (genapi_complete_core sha1 unzip good HC (w_segs (snd s)) x s t es i e text Hg eq_refl Hm Ht H8 Hv Hn Hsz Hd).
+Qed.
+
+(* ---- concrete devices: non-vacuity, and the two defects of the pinned code ------------------------ *)
+Definition poke (segs : list (Z * list Z)) (a : Z) (n : nat) (v : Z) : list (Z * list Z) :=
+  match seg_write segs a (le_bytes n v) with Some s => s | None => segs end.
+
+Definition std_segs : list (Z * list Z) :=
+  poke (poke (poke (poke (poke (poke (poke
+    [(0, repeat 0 1024); (65536, repeat 0 256); (131072, repeat 0 256)]
+    460 4 5) 464 8 196608) 472 8 65536) 65540 8 1) 65556 4 1024) 65560 4 64) 65568 8 131072.
+
+Definition mk_entry (ver info addr size : Z) (h : list Z) : list Z :=
+  le_bytes 4 ver ++ le_bytes 4 info ++ le_bytes 8 addr ++ le_bytes 8 size ++ h ++ repeat 0 20.
+
+Definition wit_world (tab : list Z) (files : list (Z * list Z)) : world :=
+  w_with world_init (std_segs ++ (196608, tab) :: files) [] None.
+
+(* the state after ControlHandle::open on that device *)
+Definition opened (w : world) : xst := snd (liftM ctl_open (xctl_init, (ctl_init, w))).
+
+Definition doc_a : list Z := [60; 97; 62; 111; 108; 100; 60; 47; 97; 62].      (* <a>old</a> *)
+Definition doc_b : list Z := [60; 98; 62; 110; 101; 119; 60; 47; 98; 62].      (* <b>new</b> *)
+Definition fake_sha1 (bs : list Z) : list Z := repeat (1 + hd 0 (tl bs)) 20.
+
+(* two device XML entries 1.0.255 and 1.0.256 and a buffer XML 9.0.0: the second one is returned *)
+Example ex_newest :
+  fst (genapi fake_sha1 (fun _ => None)
+         (opened (wit_world (le_bytes 8 3 ++ mk_entry 16777471 0 262144 10 (fake_sha1 doc_a)
+                                           ++ mk_entry 16777472 0 262656 10 (fake_sha1 doc_b)
+                                           ++ mk_entry 150994944 1 262144 10 (repeat 0 20))
+                            [(262144, doc_a); (262656, doc_b)]))) = Ok doc_b.
+Proof. vm_compute. reflexivity. Qed.
+
+(* the pinned code: ZipArchive::new(..).unwrap() on a file that is not an archive *)
+Lemma zip_v0_refuted :
+  exists sha1 unzip xs,
+    fst (genapi_v0 sha1 unzip xs) = Panic /\ fst (genapi sha1 unzip xs) = Err CE_INVALID_DEVICE.
+Proof.
+  exists fake_sha1, (fun _ => None),
+    (opened (wit_world (le_bytes 8 1 ++ mk_entry 16777216 1024 262144 10 (repeat 0 20)) [(262144, doc_a)])).
+  vm_compute. split; reflexivity.
+Qed.
+
+(* known finding: vec![0; file_size] with file_size = 2^63 panics (capacity overflow) *)
+Lemma absurd_size_refuted :
+  exists sha1 unzip xs, fst (genapi sha1 unzip xs) = Panic.
+Proof.
+  exists fake_sha1, (fun _ => None),
+    (opened (wit_world (le_bytes 8 1 ++ mk_entry 16777216 0 262144 (2 ^ 63) (repeat 0 20)) [(262144, doc_a)])).
+  vm_compute. reflexivity.
+Qed.
+
+Theorem genapi_error_cases sha1 unzip (good : st -> Prop) x s t es r xs' :
+  honest_reads good -> good s -> manifest_known (x_mt x) (w_segs (snd s)) t ->
+  table_at (w_segs (snd s)) t es -> (forall e, In e es -> me_size e < 2 ^ 63) ->
+  genapi sha1 unzip (x, s) = (r, xs') ->
+  ((forall e, In e es -> ~ is_dev e) \/
+   (exists e, In e es /\ ~ valid_type e) \/
+   (exists i e, newest_at es i e /\
+      (mem_read (w_segs (snd s)) (me_addr e) (me_size e) = None \/
+       exists file, mem_read (w_segs (snd s)) (me_addr e) (me_size e) = Some file /\
+         ((~ hash_absent (me_hash e) /\ sha1 file <> me_hash e) \/
+          (file_format e <> 0 /\ file_format e <> 1) \/
+          (file_format e = 1 /\ forall xml, unzip file <> Some [Some xml]))))) ->
+  exists c, r = Err c.
+Proof.
+  intros HH Hg Hm Ht Hsz E Hcase.
+  exact (genapi_errors sha1 unzip good x s t es r xs' HH Hg Hm Ht Hsz E
+           (no_document_cases sha1 unzip (w_segs (snd s)) es Hcase)).
+Qed.
